@@ -43,7 +43,15 @@ CAP = 3000                             # probe budget (evaluations) when looking
 
 # evaluations of the termination condition after it first returned true, measured on the unchanged tree over
 # seeds 0..9 x all histories of the thorough tier (max per planner); the check allows 4 * measured + 8.
-AFTER_MEASURED = {}
+AFTER_MEASURED = {
+    "LazyLBTRRT": 2, "PRM": 3, "PRMstar": 3, "LazyPRM": 1, "LazyPRMstar": 1, "SPARS": 2, "SPARStwo": 3, "FMT": 1, "BFMT": 2,
+    "AITstar": 2, "EITstar": 3, "EIRMstar": 3, "AnytimePathShortening": 24, "pRRT": 2, "pSBL": 2, "CForest": 2,
+    # every other planner tests the condition only in its main `while (!ptc)` loop: 0 further evaluations measured
+    "RRT": 0, "RRTConnect": 0, "RRTstar": 0, "InformedRRTstar": 0, "SORRTstar": 0, "RRTsharp": 0, "RRTXstatic": 0, "LazyRRT": 0,
+    "TRRT": 0, "BiTRRT": 0, "LBTRRT": 0, "RLRT": 0, "BiRLRT": 0, "EST": 0, "BiEST": 0, "ProjEST": 0, "KPIECE1": 0, "BKPIECE1": 0,
+    "LBKPIECE1": 0, "PDST": 0, "SBL": 0, "STRIDE": 0, "BITstar": 0, "ABITstar": 0, "SST": 0, "cRRT": 0, "cSST": 0, "cEST": 0,
+    "cKPIECE1": 0, "cPDST": 0,
+}
 AFTER_DEFAULT = 8
 
 NOSOL_STATUS = {"TIMEOUT", "INVALID_START", "INVALID_GOAL", "UNRECOGNIZED_GOAL_TYPE", "UNKNOWN", "CRASH", "ABORT"}
@@ -315,12 +323,12 @@ def report_fail(ck, rn, res):
         c = res["ctx"][i] if i < len(res["ctx"]) else "end"
         if c == "-":
             c = res["ops"][i].split()[0]
-        key = (res["planner"], clause, c)
+        rec = {"engine": "proto", "planner": res["planner"], "clause": clause, "ctx": c, "history": res["history"]}
+        rec.update(history_flags(res["ops"], res["ctx"]))
+        key = (res["planner"], clause, c, rec["getpd"], rec["dirty"], rec["adds_start_later"])
         if key in seen:
             continue
         seen.add(key)
-        rec = {"engine": "proto", "planner": res["planner"], "clause": clause, "ctx": c, "history": res["history"]}
-        rec.update(history_flags(res["ops"], res["ctx"]))
         v = ck.report(rec, script=res["script"], expected="spec oracle: %s" % clause,
                       observed={"op": i, "what": text, "out": (res["out"] or [])[:12], "stderr": sanitizer_summary(res["err"])},
                       engine="proto")
@@ -509,6 +517,8 @@ def lockstep(ck, rn, seed, hname, k, K, ops):
     d = ck.first_diff(impl, model)
     if d is not None:
         ck.disagreements += 1
+        if ck.disagreements > 3:      # the first three are written out as replays, the rest only counted
+            return False
         ck.report({"engine": "proto", "what": "model/implementation disagreement"}, script=script,
                   expected={"model_script": mscript, "model": model}, observed={"impl": impl, "first_diff": d},
                   found_input=False, engine="proto",
